@@ -3,6 +3,7 @@
 //! usage: firmc <Cxx> <quick|thorough> [--replay <file>] [--sub] [--child <spec>]
 mod alg;
 mod coef;
+mod containers;
 mod conv;
 mod explore;
 mod guard;
